@@ -14,9 +14,20 @@ theorem tailOps_zero : tailOps 0 = [.recv1, .recv2, .process, .release, .creleas
 theorem tailOps_succ (k : Nat) : tailOps (k + 1) = .wait :: tailOps k := by
   simp [tailOps, List.replicate_succ]
 
+/-- what follows the second write under the shipped discipline: for a broadcast the marker and the two releases, for
+    an ordinary request the polls, the reads, the processing and the two releases -/
+def tailX (r : Req) (k : Nat) : List Op := if r.bcast then [.bdone, .release, .crelease] else tailOps k
+
+theorem tailX_bcast {r : Req} (h : r.bcast = true) (k : Nat) : tailX r k = [.bdone, .release, .crelease] := by
+  simp [tailX, h]
+theorem tailX_plain {r : Req} (h : r.bcast = false) (k : Nat) : tailX r k = tailOps k := by simp [tailX, h]
+
 theorem txnOps_whole (r : Req) :
     txnOps .whole r =
-      .cacquire :: .preconnect :: .acquire :: .tid :: .connect :: .flush :: .send1 :: .send2 :: tailOps r.lat := rfl
+      .cacquire :: .preconnect :: .acquire :: .tid :: .connect :: .flush :: .send1 :: .send2 :: tailX r r.lat := by
+  show ([Op.cacquire, .preconnect, .acquire] ++ coreOps r ++ [Op.release, .crelease]) = _
+  unfold coreOps afterSend tailX tailOps
+  cases r.bcast <;> simp
 
 /-- only lock releases are left: the request in progress (if any) has its result -/
 def onlyReleases (ops : List Op) : Bool := ops.all (fun o => o == .release || o == .crelease)
@@ -200,7 +211,7 @@ theorem stepOp_work (scope : LockScope) (s : State) (t : Nat) (ops : List Op) (o
   case flush => split <;> simp [upd, Thread.work, Op.weight] <;> omega
   case connect => split <;> simp [upd, Thread.work, Op.weight, opsWeight_cons] <;> omega
   case preconnect => split <;> simp [upd, Thread.work, Op.weight, opsWeight_cons] <;> omega
-  case send2 => split <;> simp [upd, Thread.work, Op.weight] <;> omega
+  case send2 => split <;> (try split) <;> simp [upd, Thread.work, Op.weight] <;> omega
   case recv2 => split <;> simp [upd, Thread.work, Op.weight] <;> omega
   case recv1 =>
     split
